@@ -10,10 +10,10 @@
 
    Library behaviour that is not modelled enters through the record [toracles]:
    strconv.IsPrint on runes >= 0x80 (used by Bquote), net.ParseIP, net.IP.String,
-   net.ParseCIDR, net.IPNet.String, unicode.ToLower on runes >= 0x80 (bytes.ToLower of a
-   string with a byte >= 0x80 is bytes.Map(unicode.ToLower), modelled below).
+   net.ParseCIDR, net.IPNet.String.
    Modelled directly: strconv.ParseUint (base 10), fmt %d / %03o, bytes.Split /
-   SplitN / Join / Contains / HasPrefix, ASCII bytes.ToLower, net.IP.To4 / To16,
+   SplitN / Join / Contains / HasPrefix, toLowerASCII (since /repo c5bd440 keys are lower-cased
+   A-Z only, no longer with the Unicode-aware bytes.ToLower), net.IP.To4 / To16,
    net.CIDRMask sizes, binary.Write big endian, uint8/uint16/uint32 wrap-around.
 
    Go slices are immutable values here; the aliasing in the real code (Bunquote
@@ -27,8 +27,7 @@ Record toracles := mkTO {
   o_parse_ip : bytes -> option bytes;          (* net.ParseIP(string(s)): nil or the 16-byte form *)
   o_print_ip : bytes -> bytes;                 (* net.IP(a).String() of a 16-byte slice *)
   o_parse_cidr : bytes -> option (bytes * N * N);  (* net.ParseCIDR: (ipnet.IP (4 or 16 bytes), ones, bits) *)
-  o_print_net : bytes -> N -> bytes;           (* (&net.IPNet{IP: a (16 bytes), Mask: CIDRMask(ones,128)}).String() *)
-  o_lower_rune : N -> N                        (* unicode.ToLower, runes >= 0x80 *)
+  o_print_net : bytes -> N -> bytes            (* (&net.IPNet{IP: a (16 bytes), Mask: CIDRMask(ones,128)}).String() *)
 }.
 
 (* error enumeration *)
@@ -134,32 +133,16 @@ Definition putloc (lo : bytes) : bytes := if (length lo =? 2)%nat then lo else [
 
 Definition ascii_lower (c : N) : N := if (65 <=? c) && (c <=? 90) then c + 32 else c.
 
-(* bytes.Map(f, s): rune by rune, an invalid byte counts as U+FFFD of width 1; fuel = length s
-   suffices because every step consumes at least one byte *)
-Fixpoint map_runes (f : N -> N) (fuel : nat) (s : bytes) : bytes :=
-  match fuel with
-  | O => []
-  | S fu =>
-    match s with
-    | [] => []
-    | b0 :: t =>
-      if b0 <? 128 then encode_rune (f b0) ++ map_runes f fu t
-      else let '(r, w) := decode_rune s in encode_rune (f r) ++ map_runes f fu (skipn w s)
-    end
-  end.
+(* toLowerASCII: A-Z only *)
+Definition to_lower (d : bytes) : bytes := map ascii_lower d.
 
-(* bytes.ToLower: ASCII fast path, otherwise Map(unicode.ToLower) *)
-Definition lower_rune (o : toracles) (r : N) : N := if r <? 128 then ascii_lower r else o_lower_rune o r.
-Definition to_lower (o : toracles) (d : bytes) : bytes :=
-  if forallb (fun c => c <? 128) d then map ascii_lower d else map_runes (lower_rune o) (length d) d.
-
-Definition domainkey (o : toracles) (v2 : bool) (dom lo : bytes) : bytes :=
-  let d := to_lower o dom in
+Definition domainkey (v2 : bool) (dom lo : bytes) : bytes :=
+  let d := to_lower dom in
   if v2 then [0; 111] ++ putrevdom d ++ putloc lo else putloc lo ++ putdom d.
 
-Definition mapkey (o : toracles) (v2 : bool) (marker : N) (dom : bytes) : bytes :=
+Definition mapkey (v2 : bool) (marker : N) (dom : bytes) : bytes :=
   let '(d, suffix) := if is_wild dom then (skipn 2 dom, 42) else (dom, 61) in
-  let d := to_lower o d in
+  let d := to_lower d in
   [0; marker] ++ (if v2 then putrevdom d else putdom d) ++ [suffix].
 
 Definition zeros8 : bytes := [0;0;0;0;0;0;0;0].
@@ -374,19 +357,19 @@ Definition T_A : N := 1.    Definition T_NS : N := 2.   Definition T_CNAME : N :
 Definition T_SOA : N := 6.  Definition T_PTR : N := 12. Definition T_MX : N := 15.
 Definition T_TXT : N := 16. Definition T_AAAA : N := 28. Definition T_SRV : N := 33.
 
-Definition addr_kv (o : toracles) (v2 : bool) (dom : bytes) (wild : bool) (ip : option bytes) (ttl : N) (lo : bytes) (weight : N) : list kv :=
+Definition addr_kv (v2 : bool) (dom : bytes) (wild : bool) (ip : option bytes) (ttl : N) (lo : bytes) (weight : N) : list kv :=
   match ip with
   | None => []
   | Some a =>
-    if is4 a then [(domainkey o v2 dom lo, rrhead T_A ttl lo wild ++ u32be weight ++ skipn 12 a)]
-    else [(domainkey o v2 dom lo, rrhead T_AAAA ttl lo wild ++ u32be weight ++ a)]
+    if is4 a then [(domainkey v2 dom lo, rrhead T_A ttl lo wild ++ u32be weight ++ skipn 12 a)]
+    else [(domainkey v2 dom lo, rrhead T_AAAA ttl lo wild ++ u32be weight ++ a)]
   end.
 
-Definition ns_kv (o : toracles) (v2 : bool) (dom ns : bytes) (ttl : N) (lo : bytes) : list kv :=
-  [(domainkey o v2 dom lo, rrhead T_NS ttl lo false ++ putdom ns)].
+Definition ns_kv (v2 : bool) (dom ns : bytes) (ttl : N) (lo : bytes) : list kv :=
+  [(domainkey v2 dom lo, rrhead T_NS ttl lo false ++ putdom ns)].
 
-Definition soa_kv (o : toracles) (v2 : bool) (dom ns adm : bytes) (ser ref ret exp min ttl : N) (lo : bytes) : list kv :=
-  [(domainkey o v2 dom lo, rrhead T_SOA ttl lo false ++ putdom ns ++ putdom adm ++
+Definition soa_kv (v2 : bool) (dom ns adm : bytes) (ser ref ret exp min ttl : N) (lo : bytes) : list kv :=
+  [(domainkey v2 dom lo, rrhead T_SOA ttl lo false ++ putdom ns ++ putdom adm ++
      u32be ser ++ u32be ref ++ u32be ret ++ u32be exp ++ u32be min)].
 
 (* TXT: chunks of at most 127 bytes, each preceded by its length *)
@@ -398,7 +381,7 @@ Fixpoint txt_chunks (s : bytes) (k : nat) (cur : bytes) : bytes :=
   end.
 
 (* the Features / NoRnetOutput settings of the codec are arguments *)
-Definition convert (o : toracles) (v2 : bool) (nornet : bool) (r : record) : list kv :=
+Definition convert (v2 : bool) (nornet : bool) (r : record) : list kv :=
   match r with
   | RNet lo ip ones lmap =>
     if nornet then [] else
@@ -406,28 +389,28 @@ Definition convert (o : toracles) (v2 : bool) (nornet : bool) (r : record) : lis
     (if is4 ip && (96 <=? ones) && (ones mod 8 =? 0)
      then [([0; 37] ++ lmap ++ firstn (nbytes - 12) (skipn 12 ip), putloc lo)] else []) ++
     [([0; 37] ++ lmap ++ ip ++ [ones mod 256], putloc lo)]
-  | RSoa dom ns adm ser ref ret exp min ttl lo => soa_kv o v2 dom ns adm ser ref ret exp min ttl lo
+  | RSoa dom ns adm ser ref ret exp min ttl lo => soa_kv v2 dom ns adm ser ref ret exp min ttl lo
   | RDot dom ip ns ttl lo ser =>
-    soa_kv o v2 dom ns (s_hostmaster ++ 46 :: dom) ser 16384 2048 1048576 2560 (if ttl =? 0 then 0 else ShortTTL) lo ++
-    ns_kv o v2 dom ns ttl lo ++ addr_kv o v2 ns false ip ttl lo 1
-  | RNs dom ip ns ttl lo => ns_kv o v2 dom ns ttl lo ++ addr_kv o v2 ns false ip ttl lo 1
-  | RAddr dom wild ip ttl lo weight => addr_kv o v2 dom wild ip ttl lo weight
+    soa_kv v2 dom ns (s_hostmaster ++ 46 :: dom) ser 16384 2048 1048576 2560 (if ttl =? 0 then 0 else ShortTTL) lo ++
+    ns_kv v2 dom ns ttl lo ++ addr_kv v2 ns false ip ttl lo 1
+  | RNs dom ip ns ttl lo => ns_kv v2 dom ns ttl lo ++ addr_kv v2 ns false ip ttl lo 1
+  | RAddr dom wild ip ttl lo weight => addr_kv v2 dom wild ip ttl lo weight
   | RPaddr dom wild ip ttl lo =>
-    addr_kv o v2 dom wild ip ttl lo 1 ++
-    [(domainkey o v2 (reverseaddr ip) lo,
+    addr_kv v2 dom wild ip ttl lo 1 ++
+    [(domainkey v2 (reverseaddr ip) lo,
       rrhead T_PTR ttl lo false ++ putdom (if wild then 42 :: 46 :: dom else dom))]
   | RMx dom ip mx dist ttl lo =>
-    [(domainkey o v2 dom lo, rrhead T_MX ttl lo false ++ u16be dist ++ putdom mx)] ++
-    addr_kv o v2 mx false ip ttl lo 1
+    [(domainkey v2 dom lo, rrhead T_MX ttl lo false ++ u16be dist ++ putdom mx)] ++
+    addr_kv v2 mx false ip ttl lo 1
   | RSrv dom ip srv port pri weight ttl lo =>
-    [(domainkey o v2 dom lo, rrhead T_SRV ttl lo false ++ u16be pri ++ u16be weight ++ u16be port ++ putdom srv)] ++
-    addr_kv o v2 srv false ip ttl lo 1
-  | RCname dom wild cname ttl lo => [(domainkey o v2 dom lo, rrhead T_CNAME ttl lo wild ++ putdom cname)]
-  | RPtr dom host ttl lo => [(domainkey o v2 dom lo, rrhead T_PTR ttl lo false ++ putdom host)]
-  | RTxt dom wild txt ttl lo => [(domainkey o v2 dom lo, rrhead T_TXT ttl lo wild ++ txt_chunks txt 0 [])]
-  | RAux dom rtype rdata ttl lo => [(domainkey o v2 dom lo, rrhead rtype ttl lo false ++ rdata)]
-  | RIpmap dom lmap => [(mapkey o v2 77 dom, lmap)]
-  | RCsmap dom lmap => [(mapkey o v2 56 dom, lmap)]
+    [(domainkey v2 dom lo, rrhead T_SRV ttl lo false ++ u16be pri ++ u16be weight ++ u16be port ++ putdom srv)] ++
+    addr_kv v2 srv false ip ttl lo 1
+  | RCname dom wild cname ttl lo => [(domainkey v2 dom lo, rrhead T_CNAME ttl lo wild ++ putdom cname)]
+  | RPtr dom host ttl lo => [(domainkey v2 dom lo, rrhead T_PTR ttl lo false ++ putdom host)]
+  | RTxt dom wild txt ttl lo => [(domainkey v2 dom lo, rrhead T_TXT ttl lo wild ++ txt_chunks txt 0 [])]
+  | RAux dom rtype rdata ttl lo => [(domainkey v2 dom lo, rrhead rtype ttl lo false ++ rdata)]
+  | RIpmap dom lmap => [(mapkey v2 77 dom, lmap)]
+  | RCsmap dom lmap => [(mapkey v2 56 dom, lmap)]
   | RRangePoint lmap ip ml null locid =>
     [([0; 0; 0; 33] ++ lmap ++ ip ++ [if null then 0 else ml], if null then [] else locid)]
   end.
